@@ -1,5 +1,212 @@
-(* C03 — property theorems only (placeholder during bring-up; replaced by the real list) *)
-From MV Require Import C03.Model.
-Theorem c03_bringup : fstep (finit 2 4 false 1 (fun _ => 1%nat)) 5 0 = None.
-Proof. reflexivity. Qed.
-Print Assumptions c03_bringup.
+(* C03 — property theorems only (proved in C03/Proofs*.v; refutations in C03/Variants.v).
+   Every statement quantifies over ALL schedules (lists of (thread, choice); a choice selects
+   the waiter a notify wakes, a spurious condition-variable wake-up, a spurious weak-CAS
+   failure), any number of threads where the usage allows it, any capacity / script lengths.
+   "enabled" = the thread can take a step with choice 0, i.e. WITHOUT counting spurious
+   wake-ups as progress.  "Empty" / "full" are the code's own tests on cursors / counts. *)
+From MV Require Import C03.Model C03.ProofsCommon.
+From MV Require Import C03.ProofsChanF C03.ProofsChanM C03.ProofsRing C03.ProofsAbq C03.ProofsDbuf C03.ProofsBalanced C03.Variants.
+From MV Require C04.Model C04.ProofsLock C03.ProofsSync.
+Local Open Scope Z_scope.
+
+(* ---------- (a) channel, futex-waiting reader (tid 0 reader, tids 1..n-1 writers) ---------- *)
+
+(* some thread can run, or all finished, or the reader sleeps on an EMPTY channel
+   (write_cursor = IDX(read_cursor+1)) with every writer finished *)
+Theorem chan_futex_no_deadlock : forall n cap wl nreads wk sched,
+  let s := exec fsys fstep (finit n cap wl nreads wk) sched in
+  (exists t, (t < n)%nat /\ f_enabled s t) \/
+  (forall t, (t < n)%nat -> f_done s t) \/
+  (f_pc (f_thr s 0%nat) = FRBlocked /\ f_wcur s = ridx (f_rcur s + 1) (f_cap s) /\
+   forall t, (0 < t < n)%nat -> f_done s t).
+Proof. exact chan_futex_no_deadlock_all. Qed.
+Print Assumptions chan_futex_no_deadlock.
+
+(* asleep on write_cursor with expected v: v is the value that was compared with the read
+   position, and write_cursor = v or a writer is between its store and its wake call (and can run) *)
+Theorem chan_futex_no_lost_wakeup : forall n cap wl nreads wk sched t,
+  let s := exec fsys fstep (finit n cap wl nreads wk) sched in
+  f_pc (f_thr s t) = FRBlocked ->
+  t = 0%nat /\
+  f_reg (f_thr s t) = ridx (f_rcur s + 1) (f_cap s) /\
+  (f_wcur s = f_reg (f_thr s t) \/
+   exists u, (u < n)%nat /\ f_pending (f_pc (f_thr s u)) = true /\ f_enabled s u).
+Proof. exact chan_futex_no_lost_wakeup_all. Qed.
+Print Assumptions chan_futex_no_lost_wakeup.
+
+(* ---------- (b) channel, condvar-waiting reader ---------- *)
+
+Theorem chan_cv_no_deadlock : forall n cap wl nreads wk sched,
+  let s := exec msys mstep (minit n cap wl nreads wk) sched in
+  (exists t, (t < n)%nat /\ m_enabled s t) \/
+  (forall t, (t < n)%nat -> m_done s t) \/
+  (m_pc (m_thr s 0%nat) = MRAsleep /\ m_empty s /\ forall t, (0 < t < n)%nat -> m_done s t).
+Proof. exact chan_cv_no_deadlock_all. Qed.
+Print Assumptions chan_cv_no_deadlock.
+
+(* waiter asleep => predicate false (channel empty) or a notifier is between its state change
+   and its notify (and can run) *)
+Theorem chan_cv_no_lost_wakeup : forall n cap wl nreads wk sched t,
+  let s := exec msys mstep (minit n cap wl nreads wk) sched in
+  (t < n)%nat -> m_pc (m_thr s t) = MRAsleep ->
+  m_empty s \/ exists u, (u < n)%nat /\ m_pending (m_pc (m_thr s u)) = true /\ m_enabled s u.
+Proof. exact chan_cv_no_lost_wakeup_all. Qed.
+Print Assumptions chan_cv_no_lost_wakeup.
+
+(* ---------- (c) ring buffer (tids < nr readers, the rest writers; single-wait: nr <= 1) ---------- *)
+
+(* some thread can run, or every thread is finished / asleep in the futex on a cursor that still
+   equals its own read position / (read-once) queued on read_mutex behind such a sleeper; and
+   every writer has finished.  "cursor = own position" is the code's emptiness test; that it means
+   "no unread message" is the ring's data-path invariant (C02, DESIGN A.6) under the documented
+   usage that writers never lap a waiting reader -- see ring_lapped_reader_sleeps. *)
+Theorem rb_no_deadlock : forall n nr cap md wl ks sched, (md = GMSingle -> (nr <= 1)%nat) ->
+  let s := exec gsys gstep (ginit n nr cap md wl ks) sched in
+  (exists t, (t < n)%nat /\ g_enabled s t) \/
+  ((forall t, (t < n)%nat ->
+      g_done s t \/
+      (g_pc (g_thr s t) = GRBlocked /\ g_cursor s = g_expect s t) \/
+      (g_pc (g_thr s t) = GRLock /\ exists u, g_rm s = Some u /\ g_pc (g_thr s u) = GRBlocked)) /\
+   (forall t, (nr <= t < n)%nat -> g_done s t)).
+Proof. exact ring_no_deadlock_all. Qed.
+Print Assumptions rb_no_deadlock.
+
+Theorem rb_no_lost_wakeup : forall n nr cap md wl ks sched t, (md = GMSingle -> (nr <= 1)%nat) ->
+  let s := exec gsys gstep (ginit n nr cap md wl ks) sched in
+  g_pc (g_thr s t) = GRBlocked ->
+  g_reg (g_thr s t) = g_expect s t /\
+  (g_cursor s = g_reg (g_thr s t) \/
+   exists u, (u < n)%nat /\ g_pending (g_pc (g_thr s u)) = true /\ g_enabled s u).
+Proof. exact ring_no_lost_wakeup_all. Qed.
+Print Assumptions rb_no_lost_wakeup.
+
+(* ---------- (d) array blocking queue (tids < nc consumers, the rest producers) ---------- *)
+
+(* some thread can run, or all finished, or every unfinished thread is a consumer asleep on an
+   EMPTY queue (so every producer finished), or every unfinished thread is a producer asleep on a
+   FULL queue (so every consumer finished) *)
+Theorem abq_no_deadlock : forall n nc cap ks sched, 1 <= cap ->
+  let s := exec qsys qstep (qinit n nc cap ks) sched in
+  (exists t, (t < n)%nat /\ q_enabled s t) \/
+  (forall t, (t < n)%nat -> q_done s t) \/
+  (q_cnt s = 0 /\ forall t, (t < n)%nat -> q_pc (q_thr s t) = QCAsleep \/ q_done s t) \/
+  (q_cnt s = cap /\ forall t, (t < n)%nat -> q_pc (q_thr s t) = QPAsleep \/ q_done s t).
+Proof. exact abq_no_deadlock_all. Qed.
+Print Assumptions abq_no_deadlock.
+
+(* consumer asleep on cv_not_empty => every item in the queue is matched by a wake token in
+   flight (producer between enqueue and notify, or woken consumer that has not re-checked);
+   producer asleep on cv_not_full => the same for the free slots *)
+Theorem abq_no_lost_wakeup : forall n nc cap ks sched t, 1 <= cap ->
+  let s := exec qsys qstep (qinit n nc cap ks) sched in
+  (t < n)%nat ->
+  (q_pc (q_thr s t) = QCAsleep ->
+     q_cnt s <= Z.of_nat (T_ne s) /\
+     (q_cnt s = 0 \/ exists u, (u < n)%nat /\ q_t_ne (q_thr s u) = true)) /\
+  (q_pc (q_thr s t) = QPAsleep ->
+     q_cap s - q_cnt s <= Z.of_nat (T_nf s) /\
+     (q_cnt s = q_cap s \/ exists u, (u < n)%nat /\ q_t_nf (q_thr s u) = true)).
+Proof. exact abq_no_lost_wakeup_all. Qed.
+Print Assumptions abq_no_lost_wakeup.
+
+(* balanced scripts (as many takes as puts: the sums of the script lengths over the producers and
+   over the consumers of the initial state agree): no blocked end state at all, every script can
+   be completed *)
+Theorem abq_balanced_scripts_never_stuck : forall n nc cap ks sched, 1 <= cap ->
+  tsum q_pw (q_thr (qinit n nc cap ks)) n = tsum q_cw (q_thr (qinit n nc cap ks)) n ->
+  let s := exec qsys qstep (qinit n nc cap ks) sched in
+  (exists t, (t < n)%nat /\ q_enabled s t) \/ (forall t, (t < n)%nat -> q_done s t).
+Proof. exact abq_balanced_no_deadlock_all. Qed.
+Print Assumptions abq_balanced_scripts_never_stuck.
+
+(* ---------- (e) double buffer (tid 0 reader, the rest writers) ---------- *)
+
+(* some thread can run, or all finished, or the reader sleeps on an EMPTY back buffer with every
+   writer finished, or the reader has FINISHED (stopped consuming) and the remaining writers sleep *)
+Theorem dbuf_no_deadlock : forall n cap need wk sched, 1 <= cap ->
+  let s := exec dsys dstep (dinit n cap need wk) sched in
+  (exists t, (t < n)%nat /\ d_enabled s t) \/
+  (forall t, (t < n)%nat -> d_done s t) \/
+  (d_back s = 0 /\ forall t, (t < n)%nat -> d_pc (d_thr s t) = DRAsleep \/ d_done s t) \/
+  (0 < d_back s /\ forall t, (t < n)%nat -> d_pc (d_thr s t) = DWAsleep \/ d_done s t).
+Proof. exact dbuf_no_deadlock_all. Qed.
+Print Assumptions dbuf_no_deadlock.
+
+(* why notify_ONE on cv_not_full suffices: while the reader has not finished, a writer asleep on
+   cv_not_full never means that everybody is stuck *)
+Theorem dbuf_notify_one_suffices : forall n cap need wk sched w r, 1 <= cap ->
+  let s := exec dsys dstep (dinit n cap need wk) sched in
+  (w < n)%nat -> d_pc (d_thr s w) = DWAsleep ->
+  (r < n)%nat -> d_is_reader (d_pc (d_thr s r)) = true ->
+  exists t, (t < n)%nat /\ d_enabled s t.
+Proof. exact dbuf_notify_one_suffices_all. Qed.
+Print Assumptions dbuf_notify_one_suffices.
+
+(* balanced usage (the reader asks for exactly as many items as the writers write): no blocked
+   end state at all; no writer is left asleep behind a notify_one *)
+Theorem dbuf_balanced_scripts_never_stuck : forall n cap need wk sched, 1 <= cap ->
+  tsum d_ww (d_thr (dinit n cap need wk)) n = tsum d_rw (d_thr (dinit n cap need wk)) n ->
+  let s := exec dsys dstep (dinit n cap need wk) sched in
+  (exists t, (t < n)%nat /\ d_enabled s t) \/ (forall t, (t < n)%nat -> d_done s t).
+Proof. exact dbuf_balanced_no_deadlock_all. Qed.
+Print Assumptions dbuf_balanced_scripts_never_stuck.
+
+(* the progress measure behind it: the notify of a read wakes one sleeping writer whenever there
+   is one (the number of writers asleep on cv_not_full decreases by one with each completed read) *)
+Theorem dbuf_read_wakes_one_sleeping_writer : forall s t ch s' l,
+  (t < d_n s)%nat -> d_pc (d_thr s t) = DRSig -> dstep s t ch = Some (s', l) ->
+  let asleep := fun (x : dthread) => match d_pc x with DWAsleep => true | _ => false end in
+  (0 < tcount asleep (d_thr s) (d_n s))%nat ->
+  (tcount asleep (d_thr s') (d_n s') + 1 = tcount asleep (d_thr s) (d_n s))%nat.
+Proof. exact d_read_wakes_one. Qed.
+Print Assumptions dbuf_read_wakes_one_sleeping_writer.
+
+Theorem dbuf_no_lost_wakeup : forall n cap need wk sched t, 1 <= cap ->
+  let s := exec dsys dstep (dinit n cap need wk) sched in
+  (t < n)%nat ->
+  (d_pc (d_thr s t) = DRAsleep ->
+     d_back s = 0 \/ exists u, (u < n)%nat /\ d_t_ne (d_pc (d_thr s u)) = true) /\
+  (d_pc (d_thr s t) = DWAsleep ->
+     0 < d_back s \/ exists u, (u < n)%nat /\ d_t_nf (d_pc (d_thr s u)) = true).
+Proof. exact dbuf_no_lost_wakeup_all. Qed.
+Print Assumptions dbuf_no_lost_wakeup.
+
+(* ---------- (f) synclock (C04's model of synclock.c, repaired loop) ---------- *)
+
+Theorem synclock_no_deadlock : forall P n it sched,
+  let s := exec C04.Model.lsys (C04.Model.lstep P true) (C04.Model.linit C04.Model.KSync n it) sched in
+  (exists t, (t < n)%nat /\ C03.ProofsSync.l_enabled P s t) \/
+  (forall t, (t < n)%nat -> C04.Model.l_pc (C04.Model.l_thr s t) = C04.Model.LDone).
+Proof. exact C03.ProofsSync.synclock_no_deadlock_all. Qed.
+Print Assumptions synclock_no_deadlock.
+
+(* asleep on the lock word expecting LOCK => the word is LOCK and the holder can run (it will
+   store UNLOCK and wake), or an unlocker is between its store and its wake call, or a thread is
+   about to retry the compare-exchange *)
+Theorem synclock_no_lost_wakeup : forall P n it sched t,
+  let s := exec C04.Model.lsys (C04.Model.lstep P true) (C04.Model.linit C04.Model.KSync n it) sched in
+  C04.Model.l_pc (C04.Model.l_thr s t) = C04.Model.LBlocked ->
+  (C04.Model.l_lock s = 1 /\
+   exists u, (u < n)%nat /\ C04.ProofsLock.holds (C04.Model.l_pc (C04.Model.l_thr s u)) = true /\
+             C03.ProofsSync.l_enabled P s u) \/
+  (exists u, (u < n)%nat /\ C03.ProofsSync.l_waker (C04.Model.l_pc (C04.Model.l_thr s u)) = true /\
+             C03.ProofsSync.l_enabled P s u) \/
+  (exists u, (u < n)%nat /\ C03.ProofsSync.l_about (C04.Model.l_thr s u) = true /\
+             C03.ProofsSync.l_enabled P s u).
+Proof. exact C03.ProofsSync.synclock_no_lost_wakeup_all. Qed.
+Print Assumptions synclock_no_lost_wakeup.
+
+(* ---------- refutations of the classic broken variants (C03/Variants.v) ---------- *)
+
+(* futex wait on a re-loaded cursor value: the per-sleeper invariant fails and the reader sleeps
+   for ever with a message in the channel *)
+Theorem refuted_futex_wait_on_reloaded_value :
+  ~ FInv (exec fsys fstep_reload (finit 2 4 false 1 (fun _ => 1%nat)) f_lost_sched).
+Proof. exact chan_futex_reload_breaks_invariant. Qed.
+Print Assumptions refuted_futex_wait_on_reloaded_value.
+
+(* `if` instead of `while` around a condvar wait + one spurious wake-up: take from an empty queue *)
+Theorem refuted_if_instead_of_while :
+  ~ QInv (exec qsys qstep_if (qinit 2 1 1 (fun _ => 1%nat)) [(0,0);(0,0);(0,0);(0,0); (0,1); (0,0)]%nat).
+Proof. exact abq_if_breaks_invariant. Qed.
+Print Assumptions refuted_if_instead_of_while.
